@@ -133,15 +133,17 @@ func check(x *vsync.Exec) string {
 func TestC33(t *testing.T) {
 	run := evid.Start("C33", "model_checking")
 	agg := mc.NewAgg(run)
-	nLinks, depth, bound := 2, 4, 2
+	nLinks, depth, bound := 3, 5, 2
 	if !run.Quick() {
-		nLinks, depth, bound = 3, 6, 3
+		nLinks, depth, bound = 3, 7, 3
 	}
 	hs := histories(nLinks, depth)
-	for _, h := range hs {
+	mc.RunScenarios(t, agg, len(hs), func(i int) *vsync.Config {
+		h := hs[i]
 		name := "holdopen/" + strings.Join(h, ",")
-		res := vsync.Explore(t, &vsync.Config{Name: name, Bound: bound, Deadline: run.Deadline(), Body: body(h), Check: check})
-		agg.Add(res, func(v *vsync.Violation) string {
+		return &vsync.Config{Name: name, Bound: bound, Deadline: run.Deadline(), Body: body(h), Check: check}
+	}, func(v *vsync.Violation) string {
+		{
 			// key: shape of the failure, independent of link numbering
 			var strong, want, live int
 			var disposed bool
@@ -154,8 +156,8 @@ func TestC33(t *testing.T) {
 			default:
 				return "missing-strong-ref-with-links"
 			}
-		})
-	}
+		}
+	})
 	agg.Finish(true)
 	run.Cov["histories"] = len(hs)
 	run.Cov["preemption_bound"] = bound
